@@ -1212,4 +1212,47 @@ theorem exec_twice_backwards (cb cb' : Cb) (now0 now : Int) (fuel fuel' k k' : N
 example : WF Mgr.init ∧ CbPos (fun _ _ => []) ∧ (execLoop (fun _ _ => []) 5 3 0 Mgr.init).2.2 = true :=
   ⟨init_wf, by intro k i j s iv h; simp at h, by decide⟩
 
+
+/-! ### the repaired findings: re-entrant `exec`, `minimal_interval` of an empty manager (`Guard.lean`) -/
+
+/-- RE-ENTRANT `exec` (repaired C16-nested-exec-refires): with callbacks that make plan / unplan
+calls and call `exec(now')` of the same manager ANYWHERE in between — with any times, while their own
+timer is still planned and due — `exec` is exactly the `exec` of the same callbacks without those
+calls.  So every theorem above (`not_early`, `all_due_fire`, `order_in_exec*`, `rearm_*`, `catch_up`,
+`refines_reference_exec` …) holds for such callbacks; in particular no timer's callback is run twice
+for one deadline. -/
+theorem nested_exec_ignored (cb : Nat → Nat → List ActG) (fuel : Nat) (now : Int) (k : Nat) (m : Mgr) :
+    execG (fun k i => (cb k i).map ActG.toX) fuel now k m =
+      ((execLoop (fun k i => (cb k i).filterMap ActG.base?) now fuel k m).1,
+       (execLoop (fun k i => (cb k i).filterMap ActG.base?) now fuel k m).2.1,
+       statOfBool (execLoop (fun k i => (cb k i).filterMap ActG.base?) now fuel k m).2.2) :=
+  execG_guard_aux cb fuel now k m
+
+/-- the scenario of `nested_exec_refires_witness` on the repaired code: timer 0 (deadline 5) calls
+`exec(5)` from its callback — one callback, and it is re-armed at 10 -/
+theorem nested_exec_no_refire_witness :
+    let r := execG (fun k _ => if k = 0 then [ActX.exec 5] else []) 5 5 0 ((Mgr.init.plan3 0 0 5).plan3 1 0 6)
+    r.2.1 = [⟨0, 5⟩] ∧ r.2.2 = Stat.done ∧ (r.1.tm 0).finish = 10 ∧ r.1.lst = [1, 0] := by
+  decide
+
+/-- `minimal_interval(now)` (repaired C16-minimal-interval-empty) at FULL strength, for every
+manager: when nothing is planned the reference has nothing pending and the result is the "never"
+value `numeric_limits<difftime_t>::max()`; otherwise it is the reference's time to the earliest
+pending deadline -/
+theorem minimal_interval_total (dmax : Int) (m : Mgr) (hm : WF m) (now : Int) :
+    (m.empty = true → m.minimalIntervalC dmax now = dmax ∧ (absM m).IsEmpty) ∧
+    (m.empty = false → (absM m).Earliest (m.minimalIntervalC dmax now + now)) := by
+  cases hl : m.lst with
+  | nil =>
+    have he : m.empty = true := by simp [Mgr.empty, hl]
+    refine ⟨fun _ => ⟨by simp [Mgr.minimalIntervalC, hl], (empty_eq m).mp he⟩, fun h => ?_⟩
+    rw [he] at h; exact absurd h (by decide)
+  | cons i rest =>
+    have he : m.empty = false := by simp [Mgr.empty, hl]
+    refine ⟨fun h => by rw [he] at h; exact absurd h (by decide), fun _ => ?_⟩
+    have h1 : m.minimalInterval now = some ((m.tm i).finish - now) := by simp [Mgr.minimalInterval, hl]
+    have h2 : m.minimalIntervalC dmax now = (m.tm i).finish - now := by simp [Mgr.minimalIntervalC, hl]
+    rw [h2]
+    exact minimal_interval_eq m hm now _ h1
+
 end Igris.C16
